@@ -67,6 +67,9 @@ def _sorted_tree(t):
 
 
 def generate(tier, rng):
+    # far deeper than the interpreter's recursion limit: what is defined by walking the parent links must not recurse per level
+    for depth in ([1500] if tier == "quick" else [1500, 3000]):
+        yield {"fam": "deepchain", "depth": depth, "cls": rng.choice(["nm", "light", "node"]), "what": "nav"}
     nmax = 5 if tier == "quick" else 7
     for n in range(1, nmax + 1):
         for sh in gen.shapes(n):
@@ -116,6 +119,8 @@ def generate(tier, rng):
 
 
 def judge(case, impl, drv):
+    if case.get("fam") == "deepchain":
+        return impl == {"ok": True}, True
     if isinstance(impl, list) and impl and impl[-1].get("res") == "RecursionError":
         n = len(impl) - 1          # nothing is comparable from a RecursionError on (finding K4)
         return impl[:n] == drv["spec"][:n], impl[:n] == drv["mirror"][:n]
@@ -123,6 +128,8 @@ def judge(case, impl, drv):
 
 
 def nontrivial(case):
+    if case.get("fam") == "deepchain":
+        return True
     if "trees" in case:
         return gen.tree_size(case["trees"][0]) >= 3
     return len(case["ops"]) >= 3
